@@ -11,10 +11,13 @@ failing-input search, `VIOLATION ... [no-failing-input-found]`).
 """
 import os, re, subprocess
 from . import common, translate_c
+from . import translate_canneal      # [cw] the CPython wrapper _canneal.c (own translator module, own generated file)
 
-PROPS = ("C12", "C17")
+PROPS = ("C12", "C17", "C11")         # [cw] C11: only the _canneal.c entries carry it
 # evaluated instances of the generated definitions (non-vacuity); built after the theorem modules
-EXTRA_MODULES = ["Qv.Proofs.GenEqC.Examples"]
+EXTRA_MODULES = ["Qv.Proofs.GenEqC.Examples", "Qv.Proofs.GenEqC.CannealExamples"]
+GENERATED = [translate_c, translate_canneal]
+CHECKED_FILES = ("CSource.lean", "CPrelude.lean", "CSourceCanneal.lean", "CPreludePy.lean")
 
 
 def _axioms(out, name):
@@ -33,11 +36,13 @@ def translate_and_build(prop):
     lock = common._lake_lock()          # translation + build + audit see one consistent CSource.lean
     try:
         try:
-            manifest = translate_c.write()
+            manifest = {}
+            for g in GENERATED:
+                manifest.update(g.write())
         except translate_c.ToolFailure as err:
             raise common.Infra("generated-source tie (C): " + str(err))
         recs = [r for r in manifest.values() if prop in r["props"]]
-        for fn in ("CSource.lean", "CPrelude.lean"):
+        for fn in CHECKED_FILES:
             src = common.strip_comments(open(os.path.join(translate_c.GEN_DIR, fn)).read())
             for ln, line in enumerate(src.splitlines(), 1):
                 if common.FORBIDDEN.search(line):
@@ -114,7 +119,8 @@ def translate_and_build(prop):
             # a redirected run (seeded change): leave the tree with the file generated from /repo
             saved = os.environ.pop("VERIF_REPO", None)
             try:
-                translate_c.write()
+                for g in GENERATED:
+                    g.write()
             finally:
                 if saved is not None:
                     os.environ["VERIF_REPO"] = saved
